@@ -588,6 +588,23 @@ fn compile_select_statement(
 ) -> Result<CompiledQuery, CompilationError> {
     let mut query = CompiledQuery::new();
 
+    // Clauses that would otherwise be silently ignored
+    if select.distinct
+        || select.top.is_some()
+        || select.into.is_some()
+        || !select.from.is_empty()
+        || !select.lateral_views.is_empty()
+        || !select.group_by.is_empty()
+        || !select.cluster_by.is_empty()
+        || !select.distribute_by.is_empty()
+        || !select.sort_by.is_empty()
+        || select.having.is_some()
+    {
+        return Err(CompilationError::UnsupportedOperation(
+            "only SELECT ... [WHERE ...] is supported".to_string(),
+        ));
+    }
+
     match &select.selection {
         None => {}
         Some(expr) => {
@@ -641,11 +658,21 @@ pub fn compile(
 
     match sqlparser::parser::Parser::parse_sql(&dialect, sql) {
         Ok(ast) => {
-            let select_statement = match &ast.first() {
-                Some(sqlparser::ast::Statement::Query(q)) => match &q.body {
-                    sqlparser::ast::SetExpr::Select(query) => Some(query.clone()),
-                    _ => None,
-                },
+            // A single SELECT, with nothing around it that would be silently ignored
+            let select_statement = match ast.as_slice() {
+                [sqlparser::ast::Statement::Query(q)]
+                    if q.with.is_none()
+                        && q.order_by.is_empty()
+                        && q.limit.is_none()
+                        && q.offset.is_none()
+                        && q.fetch.is_none()
+                        && q.lock.is_none() =>
+                {
+                    match &q.body {
+                        sqlparser::ast::SetExpr::Select(query) => Some(query.clone()),
+                        _ => None,
+                    }
+                }
                 _ => None,
             };
             if let Some(select) = select_statement {
